@@ -121,7 +121,11 @@ def run(ck):
         age = k * UNITS[unit]
         if age > 2 ** 32 - 1 or true + age + 1 > 2 ** 31 - 10:
             continue
-        kind = rng.choice(['header', 'header', 'modified'])
+        kind = rng.choice(['header', 'header', 'modified', 'modified-in-attachment'])
+        # the file's timestamps are those of the message file, also where the condition is evaluated on a part of the message
+        inatt = kind == 'modified-in-attachment'
+        if inatt:
+            kind = 'modified'
         sb = mdrun.Sandbox()
         src = sb.maildir('src'); dst = sb.maildir('dst')
         # four messages whose age is age-1, age, age+1 seconds at the pinned clock, and one far away
@@ -139,10 +143,13 @@ def run(ck):
                 sb.add(src, 'new', text)
             else:
                 text = b'To: a@b\nX-Id: %d\n\nbody\n' % j
+                if inatt:
+                    text = (b'To: a@b\nX-Id: %d\nContent-Type: multipart/mixed; boundary="b"\n\n--b\nContent-Type: text/plain\n\none\n--b\n'
+                            b'Content-Type: text/calendar\n\ntwo\n--b--\n' % j)
                 sb.add(src, 'new', text, mtime=inst)
         cmp_ = rng.choice(['>', '<'])
         field = '' if kind == 'header' and rng.randrange(2) else kind
-        conf = sb.write_conf(('maildir "%s" {\n\tmatch date %s %s %d %s move "%s"\n}\n' % (src, field, cmp_, k, unit, dst)).encode())
+        conf = sb.write_conf(('maildir "%s" {\n\tmatch %sdate %s %s %d %s move "%s"\n}\n' % (src, 'attachment ' if inatt else '', field, cmp_, k, unit, dst)).encode())
         env = {'VFIO_TIME': str(now)}
         if tz is not None:
             env['TZ'] = tz
@@ -171,7 +178,7 @@ def run(ck):
         'distinct_nontrivial': stats['nontrivial'] + stats['binary'],
         'rule': 'instants uniform over 1970-2037 and within +-2 h of DST switches (EU, US, AU rules; 5 years); layouts %%a, %%d %%b %%Y %%H:%%M:%%S / without seconds / without weekday; zones '
                 '+-hhmm with hh in {0,1,2,3,5,9,11,12,13,14,23} and mm in {0,1,15,30,45,59}, GMT, UT, UTC; local TZ in %r; the clock set per request. Binary: three messages aged N-1, N, N+1 '
-                'seconds at the pinned clock (Date header in a random zone, or file mtime), rule date [header|modified] > / < k unit for every unit spelling. '
+                'seconds at the pinned clock (Date header in a random zone, or file mtime), rule [attachment] date [header|modified] > / < k unit for every unit spelling. '
                 'non-trivial = a time_parse case that returned the true instant (then compared with the model) or a binary round' % ZONES,
         'samples': samples,
         'traces_validated_against_impl': stats['api'] + stats['binary'],
